@@ -10,6 +10,7 @@ verus! {
 //@include specs/range_spec.rs
 use strs::*;
 use range_spec::*;
+broadcast use strs::lemma_trim_two_steps;
 use http::HeaderValue;
 pub mod cmp { use vstd::prelude::*; pub fn min(a: u64, b: u64) -> (r: u64) ensures r == (if a <= b { a } else { b }) { if a <= b { a } else { b } } }
 
